@@ -386,7 +386,7 @@ func genC08(thorough bool) func(t *rapid.T) Case {
 	return func(t *rapid.T) Case {
 		c := &CaseC08{ReadFault: -1, SinkFail: -1}
 		c.Base = genCLIBase(t, baseOpts{shapes: names, book: BookOpts{MaxRecipes: 6, Cycles: rapid.IntRange(0, 3).Draw(t, "cycles") == 3},
-			log: LogOpts{MaxDays: 5, LongDays: rapid.IntRange(0, 7).Draw(t, "long_days") == 7}, hugeFiles: true})
+			log: LogOpts{MaxDays: 5, LongDays: rapid.IntRange(0, 7).Draw(t, "long_days") == 7}, hugeFiles: true, big: true})
 		c.BookMut = genMut(t, "bm")
 		c.LogMut = genMut(t, "lm")
 		if rapid.IntRange(0, 2).Draw(t, "extra_locals") == 2 {
@@ -408,7 +408,7 @@ func genC08(thorough bool) func(t *rapid.T) Case {
 			c.ReadFault = rapid.IntRange(0, 300).Draw(t, "read_fault")
 		}
 		if rapid.IntRange(0, 4).Draw(t, "with_sink_fault") == 4 {
-			c.SinkFail = rapid.IntRange(0, 300).Draw(t, "sink_fail")
+			c.SinkFail = rapid.SampledFrom([]int{0, 1, 7, 60, 150, 299, 4095, 4096, 4097, 8192, 12000}).Draw(t, "sink_fail")
 		}
 		c.Order = OrderPlan{Mode: rapid.SampledFrom([]string{"asc", "desc", "shuffle"}).Draw(t, "order"), Seed: rapid.Uint64().Draw(t, "order_seed")}
 		return c
